@@ -204,6 +204,18 @@ impl Backend {
             }
         });
 
+        // Handlers run concurrently and may finish out of order: never replace the text of a newer
+        // version of the document by that of an older one.  An outdated update leaves the document
+        // alone altogether (resetting the dictionary here would drop the merged identifiers).
+        if let (Some(new), Some(current)) = (version, doc_state.version) {
+            if new < current {
+                return Ok(());
+            }
+        }
+        if version.is_some() {
+            doc_state.version = version;
+        }
+
         // `doc_state.dict` may contain the identifiers of the document: compare what was loaded from
         // the dictionary files with what was loaded last time, and merge the identifiers again afterwards.
         if doc_state.base_dict != dict {
@@ -213,17 +225,6 @@ impl Backend {
             info!("Constructing new linter because of modified dictionary.");
             doc_state.linter =
                 LintGroup::new_curated(dict.clone(), dialect).with_lint_config(lint_config.clone());
-        }
-
-        // Handlers run concurrently and may finish out of order: never replace the text of a newer
-        // version of the document by that of an older one.
-        if let (Some(new), Some(current)) = (version, doc_state.version) {
-            if new < current {
-                return Ok(());
-            }
-        }
-        if version.is_some() {
-            doc_state.version = version;
         }
 
         let Some(language_id) = &doc_state.language_id else {
